@@ -508,4 +508,20 @@ def innerProductFlpAvx2 (x y : Nat → α) (n : Nat) : α :=
 
 end lanes
 
+/-! ## (iv) one primitive of the NSQ SIMD kernels: four `silk_SMULWW` at once -/
+
+/-- silk_SMULWW, OPUS_FAST_INT64 form (macros.h): `(opus_int32)(((opus_int64)a * b) >> 16)`. -/
+def smulww (a b : Int) : Int := wrap32 (wrap32 a * wrap32 b / 65536)
+
+/-- The SSE4.1 idiom of silk_nsq_scale_states_sse4_1 / silk_nsq_del_dec_scale_states_sse4_1 (NSQ_sse4_1.c:684-700,
+    722-738; NSQ_del_dec_sse4_1.c) for four 32-bit values `v` times one 32-bit factor `g`:
+    `_mm_mul_epi32` on the register and on its copy shifted down by one lane gives the four exact 64-bit products;
+    the even ones are shifted right by 16 (`_mm_srli_epi64`), the odd ones left by 16 (`_mm_slli_epi64`), and
+    `_mm_blend_epi16(.., .., 0xCC)` keeps the low dword of the former and the high dword of the latter.
+    Result lane as an unsigned 32-bit pattern. -/
+def smulwwLaneSse (v g : Int) (odd : Bool) : Int :=
+  let p := (wrap32 v * wrap32 g) % 18446744073709551616          -- the 64-bit product as a bit pattern
+  if odd then (p * 65536 % 18446744073709551616) / 4294967296    -- high dword of p << 16
+  else (p / 65536) % 4294967296                                  -- low dword of p >> 16 (logical)
+
 end Opus.Kernels
